@@ -20,3 +20,22 @@ impl VToLeBytes for u64 { type Out = [u8; 8];
 pub broadcast axiom fn ax_scalar_bytes_len(s: Scalar) ensures #[trigger] scalar_bytes(s).len() == 32;
 pub broadcast axiom fn ax_le32_len(x: u32) ensures #[trigger] le32(x).len() == 4;
 pub broadcast axiom fn ax_le64_len(x: u64) ensures #[trigger] le64(x).len() == 8;
+#[verifier::external_body]
+pub struct HashOut64 { x: u8 }
+impl HashOut64 {
+    pub uninterp spec fn bytes(&self) -> Seq<u8>;
+    #[verifier::external_body]
+    pub fn as_slice(&self) -> (r: &[u8]) ensures r@ == self.bytes(), r@.len() == 64 { unimplemented!() }
+}
+impl Blake2bMac512 {
+    // digest::FixedOutput::finalize_fixed: the 64-byte MAC value
+    #[verifier::external_body]
+    pub fn finalize_fixed(self) -> (r: HashOut64) ensures r.bytes() == self.out(), r.bytes().len() == 64 { unimplemented!() }
+}
+impl Scalar {
+    // curve25519-dalek Scalar::random: 64 RNG bytes reduced mod l; one draw from the RNG stream
+    #[verifier::external_body]
+    pub fn random<R: CryptoRngCore>(rng: &mut R) -> (r: Scalar)
+        ensures r == rng_scalar(old(rng).rng_state()), final(rng).rng_state() == R::rng_step(old(rng).rng_state())
+    { unimplemented!() }
+}
